@@ -37,7 +37,7 @@ RE_NOERROR = re.compile(r"\s+#\s+NOERROR\s+$")
 LINE_ERROR_RULES = [
     # (regular expression for finding,      error message,                                  correction)
     (
-        re.compile(r"\t"),
+        re.compile(r"\t(?=(?:[^\"]*\"[^\"]*\")*[^\"]*$)"),  # a tab inside a quoted string is data
         "tabulators should be replaced by spaces",
         r" " * SPACES_PER_INDENT,
     ),
